@@ -19,6 +19,7 @@
  *   build ts ca= | build tsta ca= tsc= t=<hex7> | build rp cot= ca= q= | build cd cot= ca= d=<ms>
  * trace:  built <asdu-hex> ret=<0|1> | dec type= vsq= cot= pn= t= oa= ca= ioa= val=<hex>   (library's own parser) */
 #include <stdio.h>
+#include <stdint.h>
 #include <stdlib.h>
 #include <string.h>
 #include "simhal.h"
@@ -74,25 +75,28 @@ static void rec_cb(int kind, long val, CS101_ASDU asdu)
 }
 static void pr_asdu(CS101_ASDU asdu) { printf(" asdu="); puthex(asdu->asdu, asdu->asduHeaderLength + asdu->payloadSize); printf("\n"); }
 
+/* every handler is registered with its own tag as the user parameter; a handler that is handed another one reports an extra call */
+#define CHKP(K) do { if ((long) (intptr_t) p != (K)) { rec_cb(0x100 | (K), (long) (intptr_t) p, asdu); if (!quiet) { printf("cb wrongparam got=%ld", (long) (intptr_t) p); pr_asdu(asdu); } } } while (0)
 static bool h_interrogation(void* p, IMasterConnection c, CS101_ASDU asdu, uint8_t qoi)
-{ rec_cb(1, qoi, asdu); if (!quiet) { printf("cb interrogation qoi=%d", qoi); pr_asdu(asdu); } return (rmask & 1) != 0; }
+{ CHKP(1); rec_cb(1, qoi, asdu); if (!quiet) { printf("cb interrogation qoi=%d", qoi); pr_asdu(asdu); } return (rmask & 1) != 0; }
 static bool h_counter(void* p, IMasterConnection c, CS101_ASDU asdu, QualifierOfCIC qcc)
-{ rec_cb(2, qcc, asdu); if (!quiet) { printf("cb counter qcc=%d", qcc); pr_asdu(asdu); } return (rmask & 2) != 0; }
+{ CHKP(2); rec_cb(2, qcc, asdu); if (!quiet) { printf("cb counter qcc=%d", qcc); pr_asdu(asdu); } return (rmask & 2) != 0; }
 static bool h_read(void* p, IMasterConnection c, CS101_ASDU asdu, int ioa)
-{ rec_cb(4, ioa, asdu); if (!quiet) { printf("cb read ioa=%d", ioa); pr_asdu(asdu); } return (rmask & 4) != 0; }
+{ CHKP(4); rec_cb(4, ioa, asdu); if (!quiet) { printf("cb read ioa=%d", ioa); pr_asdu(asdu); } return (rmask & 4) != 0; }
 static bool h_clock(void* p, IMasterConnection c, CS101_ASDU asdu, CP56Time2a t)
 {
+    CHKP(8);
     long v = 0; for (int i = 0; i < 7; i++) v = v * 131 + t->encodedValue[i];
     rec_cb(8, v, asdu);
     if (!quiet) { printf("cb clock time="); puthex(t->encodedValue, 7); pr_asdu(asdu); }
     return (rmask & 8) != 0;
 }
 static bool h_reset(void* p, IMasterConnection c, CS101_ASDU asdu, uint8_t qrp)
-{ rec_cb(16, qrp, asdu); if (!quiet) { printf("cb reset qrp=%d", qrp); pr_asdu(asdu); } return (rmask & 16) != 0; }
+{ CHKP(16); rec_cb(16, qrp, asdu); if (!quiet) { printf("cb reset qrp=%d", qrp); pr_asdu(asdu); } return (rmask & 16) != 0; }
 static bool h_delay(void* p, IMasterConnection c, CS101_ASDU asdu, CP16Time2a d)
-{ rec_cb(32, CP16Time2a_getEplapsedTimeInMs(d), asdu); if (!quiet) { printf("cb delay delay=%d", CP16Time2a_getEplapsedTimeInMs(d)); pr_asdu(asdu); } return (rmask & 32) != 0; }
+{ CHKP(32); rec_cb(32, CP16Time2a_getEplapsedTimeInMs(d), asdu); if (!quiet) { printf("cb delay delay=%d", CP16Time2a_getEplapsedTimeInMs(d)); pr_asdu(asdu); } return (rmask & 32) != 0; }
 static bool h_asdu(void* p, IMasterConnection c, CS101_ASDU asdu)
-{ rec_cb(64, 0, asdu); if (!quiet) { printf("cb asdu"); pr_asdu(asdu); } return (rmask & 64) != 0; }
+{ CHKP(64); rec_cb(64, 0, asdu); if (!quiet) { printf("cb asdu"); pr_asdu(asdu); } return (rmask & 64) != 0; }
 
 static struct sCS101_AppLayerParameters* alp_ptr(void);
 
@@ -121,6 +125,10 @@ static void set_handlers(void)
     slave->resetProcessHandler = (hmask & 16) ? h_reset : NULL;          /* cs104_slave.c defines no setter for these two */
     slave->delayAcquisitionHandler = (hmask & 32) ? h_delay : NULL;
     slave->asduHandler = (hmask & 64) ? h_asdu : NULL;
+    slave->interrogationHandlerParameter = (void*) (intptr_t) 1; slave->counterInterrogationHandlerParameter = (void*) (intptr_t) 2;
+    slave->readHandlerParameter = (void*) (intptr_t) 4; slave->clockSyncHandlerParameter = (void*) (intptr_t) 8;
+    slave->resetProcessHandlerParameter = (void*) (intptr_t) 16; slave->delayAcquisitionHandlerParameter = (void*) (intptr_t) 32;
+    slave->asduHandlerParameter = (void*) (intptr_t) 64;
 }
 /* returns handleASDU's result; responses are taken from the socket (I-frames -> ASDUs) */
 static int dispatch(uint8_t* buf, int n)
@@ -154,13 +162,13 @@ static void setup(void)
 }
 static void set_handlers(void)
 {
-    CS101_Slave_setInterrogationHandler(slave, (hmask & 1) ? h_interrogation : NULL, NULL);
-    CS101_Slave_setCounterInterrogationHandler(slave, (hmask & 2) ? h_counter : NULL, NULL);
-    CS101_Slave_setReadHandler(slave, (hmask & 4) ? h_read : NULL, NULL);
-    CS101_Slave_setClockSyncHandler(slave, (hmask & 8) ? h_clock : NULL, NULL);
-    CS101_Slave_setResetProcessHandler(slave, (hmask & 16) ? h_reset : NULL, NULL);
-    CS101_Slave_setDelayAcquisitionHandler(slave, (hmask & 32) ? h_delay : NULL, NULL);
-    CS101_Slave_setASDUHandler(slave, (hmask & 64) ? h_asdu : NULL, NULL);
+    CS101_Slave_setInterrogationHandler(slave, (hmask & 1) ? h_interrogation : NULL, (void*) (intptr_t) 1);
+    CS101_Slave_setCounterInterrogationHandler(slave, (hmask & 2) ? h_counter : NULL, (void*) (intptr_t) 2);
+    CS101_Slave_setReadHandler(slave, (hmask & 4) ? h_read : NULL, (void*) (intptr_t) 4);
+    CS101_Slave_setClockSyncHandler(slave, (hmask & 8) ? h_clock : NULL, (void*) (intptr_t) 8);
+    CS101_Slave_setResetProcessHandler(slave, (hmask & 16) ? h_reset : NULL, (void*) (intptr_t) 16);
+    CS101_Slave_setDelayAcquisitionHandler(slave, (hmask & 32) ? h_delay : NULL, (void*) (intptr_t) 32);
+    CS101_Slave_setASDUHandler(slave, (hmask & 64) ? h_asdu : NULL, (void*) (intptr_t) 64);
 }
 static int dispatch(uint8_t* buf, int n)
 {
